@@ -199,7 +199,7 @@ Qed.
 (* ---------------------------------------------------------------- VamInv gives WF of the projection *)
 
 Lemma project_wf v lr l st :
-  VamInv c v -> GV v -> get_blist v lr = Some l -> project v lr = Some st -> WFp (bl_gran l) st.
+  VamInv c v -> GV c v -> get_blist v lr = Some l -> project v lr = Some st -> WFp (bl_gran l) st.
 Proof.
   intros HI HV Hg Hp. unfold project in Hp. rewrite Hg in Hp.
   destruct (project_blocks (bl_blocks l)) as [bl|] eqn:Epb; [|discriminate]. injection Hp as <-.
@@ -224,7 +224,7 @@ Proof.
     + destruct (project_blocks_spec _ _ Epb) as (I1 & _). cbn [Defrag.d_blocks]. rewrite I1. exact Hnd.
     + cbn [Defrag.d_blocks]. intros id t Hf. apply (Hfind id t Epb Hnd) in Hf. destruct Hf as (b & B & Hid & Et).
       pose proof (Hmeta _ B) as Hmi. rewrite Et in Hmi. cbn in Hmi. destruct Hmi as (HT & H2).
-      destruct (gv_blocks _ HV _ _ _ Hg B) as (_ & HGi). specialize (HGi t Et). pose proof HGi as [_ Hh Hgg' _ _ _ _ _].
+      destruct (gv_blocks _ _ HV _ _ _ Hg B) as (_ & HGi). specialize (HGi t Et). pose proof HGi as [_ Hh Hgg' _ _ _ _ _].
       split; [exact HT|]. split; [|exact H2]. split; [exact Hgg'|]. split; [intros _; exact Hh|exact HGi].
   - intros s e He. destruct (Hown s e He) as (a & b & t & blk & Sa & Ka & La & -> & B & Hid & Et & Hblk & Ho & Htg & Hsz).
     cbn [Defrag.u_blk Defrag.u_off Defrag.u_size Defrag.u_align]. split; [|split].
@@ -251,8 +251,8 @@ Proof.
     rewrite Htg1 in Htg2. injection Htg2 as E. lia.
   - (* the stored size is the rounded size; the suballocation type is one of the five *)
     intros s e He. destruct (Hown s e He) as (a & b & t & blk & Sa & Ka & La & -> & B & Hid & Et & _).
-    cbn [Defrag.u_kind Defrag.u_size]. destruct (gv_allocs _ HV _ _ Sa Ka) as (X1 & X2). split; [|exact X1].
-    apply X2; [rewrite La; exact Hg|]. destruct (gv_blocks _ HV _ _ _ Hg B) as (Hk & _). rewrite Et in Hk. cbn in Hk.
+    cbn [Defrag.u_kind Defrag.u_size]. destruct (gv_allocs _ _ HV _ _ Sa Ka) as (X1 & X2). split; [|exact X1].
+    apply X2; [rewrite La; exact Hg|]. destruct (gv_blocks _ _ HV _ _ _ Hg B) as (Hk & _). rewrite Et in Hk. cbn in Hk.
     symmetry in Hk. apply Z.eqb_eq in Hk. exact Hk.
 Qed.
 
@@ -492,14 +492,14 @@ Proof.
 Qed.
 
 Lemma writeback_inv gg v lr l bl ms0 p0 ix cs new log :
-  VamInv c v -> GV v -> bl_gran l = gg -> get_blist v lr = Some l -> project_blocks (bl_blocks l) = Some bl ->
+  VamInv c v -> GV c v -> bl_gran l = gg -> get_blist v lr = Some l -> project_blocks (bl_blocks l) = Some bl ->
   WFp gg (Defrag.mkD bl (map (project_entry lr) (v_tab v)) false) ->
   CInvp gg (Defrag.mkD bl (map (project_entry lr) (v_tab v)) false) ms0 p0 ix cs new ->
   ix = Defrag.indexed (Defrag.mkD bl (map (project_entry lr) (v_tab v)) false) -> new = Defrag.log_moves log ->
   let v1 := set_blist v lr (set_blocks l (unproject_blocks (bl_blocks l) (Defrag.d_blocks (Defrag.cs_st cs)))) in
   let '(v2, r) := replay_log c v1 lr log in
   match r with
-  | OK _ => VamInv c v2 /\ lists_frame v v2 /\ grown v v2 /\ moves_ok v2 lr new /\ GV v2
+  | OK _ => VamInv c v2 /\ lists_frame v v2 /\ grown v v2 /\ moves_ok v2 lr new /\ GV c v2
   | ER _ => False
   | _ => True
   end.
@@ -693,15 +693,15 @@ Proof.
       { split; [|apply Ssrc]. rewrite Htab, nth_z_app_old by (apply (slot_is_range _ _ _ Ssrc)). apply Ssrc. }
       split; [exact Sa|]. rewrite Ea. unfold mk_tmp. rewrite (Hsrc1 m asrc Hm Ssrc). cbn [a_kind a_lref a_size a_align a_blk a_handle a_temp]. auto 15.
   - (* the granularity bookkeeping *)
-    assert (Ecfg2 : bl_gran l2 = bl_gran l /\ bl_algo l2 = bl_algo l /\ bl_minalign l2 = bl_minalign l) by (rewrite Hcfg2; repeat split).
-    destruct Ecfg2 as (Eg2 & Ea2 & Em2).
+    assert (Ecfg2 : bl_gran l2 = bl_gran l /\ bl_algo l2 = bl_algo l /\ bl_minalign l2 = bl_minalign l /\ bl_type l2 = bl_type l) by (rewrite Hcfg2; repeat split).
+    destruct Ecfg2 as (Eg2 & Ea2 & Em2 & Ety2).
     constructor.
     + intros lr0 l0 G0. destruct (lref_eq_dec lr0 lr) as [->|Hne].
-      * assert (l0 = l2) by congruence. subst l0. rewrite Eg2, Em2. apply (gv_cfg _ HV _ _ Hg).
-      * rewrite Hgo in G0 by exact Hne. apply (gv_cfg _ HV _ _ G0).
-    + intros lr0 l0 b2 G0 Hb2. destruct (lref_eq_dec lr0 lr) as [->|Hne]; [|rewrite Hgo in G0 by exact Hne; apply (gv_blocks _ HV _ _ _ G0 Hb2)].
+      * assert (l0 = l2) by congruence. subst l0. rewrite Eg2, Em2, Ety2. apply (gv_cfg _ _ HV _ _ Hg).
+      * rewrite Hgo in G0 by exact Hne. apply (gv_cfg _ _ HV _ _ G0).
+    + intros lr0 l0 b2 G0 Hb2. destruct (lref_eq_dec lr0 lr) as [->|Hne]; [|rewrite Hgo in G0 by exact Hne; apply (gv_blocks _ _ HV _ _ _ G0 Hb2)].
       assert (l0 = l2) by congruence. subst l0. destruct (Hl2 _ Hb2) as (b & t & t' & Hb & Hi & _ & Emt0 & Emt & F & F').
-      destruct (gv_blocks _ HV _ _ _ Hg Hb) as (Hk & _). rewrite Emt0 in Hk. split; [rewrite Emt, Ea2; exact Hk|].
+      destruct (gv_blocks _ _ HV _ _ _ Hg Hb) as (Hk & _). rewrite Emt0 in Hk. split; [rewrite Emt, Ea2; exact Hk|].
       intros t2 Et2. rewrite Emt in Et2. injection Et2 as <-. rewrite Eg2, Egg.
       destruct (G.wb_tinv Gran.HVam gg (GranTlsf.GInv gg) _ (G.wf_b Gran.HVam gg (GranTlsf.GInv gg) GranInv.kind_ok _ HW') _ _ F') as (_ & (_ & _ & HGi) & _). exact HGi.
     + assert (Hold : forall a, (GranInv.kind_ok (a_sub a) /\ forall l0, get_blist v (a_lref a) = Some l0 -> bl_algo l0 = 0 -> rnd_ok (bl_gran l0) (a_sub a) (a_size a)) ->
@@ -710,25 +710,25 @@ Proof.
         - rewrite E in *. assert (l0 = l2) by congruence. subst l0. rewrite Eg2. apply X2; [exact Hg|congruence].
         - rewrite Hgo in G0 by exact Hne. auto. }
       intros s a (Sn & Sal) Ka. rewrite Htab in Sn. destruct (Z_lt_dec s (zlen (v_tab v))) as [Hlt|Hge0].
-      * rewrite nth_z_app_old in Sn by exact Hlt. apply Hold. apply (gv_allocs _ HV s a (conj Sn Sal) Ka).
+      * rewrite nth_z_app_old in Sn by exact Hlt. apply Hold. apply (gv_allocs _ _ HV s a (conj Sn Sal) Ka).
       * assert (Hr : 0 <= s) by (apply nth_z_some_range in Sn; lia).
         replace s with (zlen (v_tab v) + Z.of_nat (Z.to_nat (s - zlen (v_tab v)))) in Sn by lia. rewrite nth_z_app_new in Sn.
         destruct (Forall2_nth_r _ _ _ _ _ Htmps Sn) as (m & Hm & (b1 & Hb1 & Hi1 & Ea)).
         destruct (Hmv m Hm) as (_ & _ & asrc & _ & _ & Ssrc & Ksrc & Lsrc & Zsrc & _).
         assert (Emk : a_sub a = a_sub asrc /\ a_size a = a_size asrc /\ a_lref a = a_lref asrc).
         { rewrite Ea. unfold mk_tmp. rewrite (Hsrc1 m asrc Hm Ssrc). cbn [a_sub a_size a_lref]. auto. }
-        destruct Emk as (E1 & E2 & E3). destruct (Hold asrc (gv_allocs _ HV _ _ Ssrc Ksrc)) as (X1 & X2). rewrite E1, E2, E3. split; [exact X1|exact X2].
+        destruct Emk as (E1 & E2 & E3). destruct (Hold asrc (gv_allocs _ _ HV _ _ Ssrc Ksrc)) as (X1 & X2). rewrite E1, E2, E3. split; [exact X1|exact X2].
 Qed.
 
 (* ---------------------------------------------------------------- BlockListCollectMoves of one context *)
 
 Lemma collect_list_inv_gv v dc p :
-  VamInv c v -> GV v -> Defrag.c_moves (dc_ctx dc) = [] -> PassProofs.pass_running p ->
+  VamInv c v -> GV c v -> Defrag.c_moves (dc_ctx dc) = [] -> PassProofs.pass_running p ->
   let '(v', r) := collect_list c v dc p in
   match r with
   | OK (dc', p') =>
       (VamInv c v' /\ lists_frame v v' /\ grown v v' /\ dc_lr dc' = dc_lr dc /\
-       moves_ok v' (dc_lr dc) (Defrag.c_moves (dc_ctx dc')) /\ PassProofs.pass_running p') /\ GV v'
+       moves_ok v' (dc_lr dc) (Defrag.c_moves (dc_ctx dc')) /\ PassProofs.pass_running p') /\ GV c v'
   | ER _ => False
   | _ => True
   end.
@@ -754,7 +754,7 @@ Proof.
 Qed.
 
 Lemma collect_list_inv v dc p :
-  VamInv c v -> GV v -> Defrag.c_moves (dc_ctx dc) = [] -> PassProofs.pass_running p ->
+  VamInv c v -> GV c v -> Defrag.c_moves (dc_ctx dc) = [] -> PassProofs.pass_running p ->
   let '(v', r) := collect_list c v dc p in
   match r with
   | OK (dc', p') =>
@@ -770,8 +770,8 @@ Qed.
 
 (* BeginDefragPass's collecting step keeps the granularity bookkeeping sound *)
 Lemma collect_list_G v dc p v' dc' p' :
-  VamInv c v -> GV v -> Defrag.c_moves (dc_ctx dc) = [] -> PassProofs.pass_running p ->
-  collect_list c v dc p = (v', OK (dc', p')) -> GV v'.
+  VamInv c v -> GV c v -> Defrag.c_moves (dc_ctx dc) = [] -> PassProofs.pass_running p ->
+  collect_list c v dc p = (v', OK (dc', p')) -> GV c v'.
 Proof.
   intros HI HV Hidle Hrun E. pose proof (collect_list_inv_gv v dc p HI HV Hidle Hrun) as P. rewrite E in P. apply P.
 Qed.
@@ -779,10 +779,10 @@ Qed.
 (* ---------------------------------------------------------------- BeginDefragPass *)
 
 Lemma pass_loop_inv_gv fuel : forall v run p,
-  VamInv c v -> run_idle run -> 0 <= dr_max_bytes run -> 0 <= dr_max_allocs run -> PassProofs.pass_running p -> GV v ->
+  VamInv c v -> run_idle run -> 0 <= dr_max_bytes run -> 0 <= dr_max_allocs run -> PassProofs.pass_running p -> GV c v ->
   let '(v', run', r) := pass_loop c fuel v run p in
   match r with
-  | OK _ => (VamInv c v' /\ lists_frame v v' /\ grown v v' /\ run_ok v' run' /\ map dc_lr (dr_ctxs run') = map dc_lr (dr_ctxs run)) /\ GV v'
+  | OK _ => (VamInv c v' /\ lists_frame v v' /\ grown v v' /\ run_ok v' run' /\ map dc_lr (dr_ctxs run') = map dc_lr (dr_ctxs run)) /\ GV c v'
   | ER _ => False
   | _ => True
   end.
@@ -821,7 +821,7 @@ Proof.
 Qed.
 
 Lemma pass_loop_inv fuel v run p :
-  VamInv c v -> run_idle run -> 0 <= dr_max_bytes run -> 0 <= dr_max_allocs run -> PassProofs.pass_running p -> GV v ->
+  VamInv c v -> run_idle run -> 0 <= dr_max_bytes run -> 0 <= dr_max_allocs run -> PassProofs.pass_running p -> GV c v ->
   let '(v', run', r) := pass_loop c fuel v run p in
   match r with
   | OK _ => VamInv c v' /\ lists_frame v v' /\ grown v v' /\ run_ok v' run' /\ map dc_lr (dr_ctxs run') = map dc_lr (dr_ctxs run)
@@ -835,7 +835,7 @@ Qed.
 
 (* BeginDefragPass, no pass open, block lists of any granularity *)
 Lemma defrag_pass_inv v run :
-  VamInv c v -> run_ok v run -> run_idle run -> GV v ->
+  VamInv c v -> run_ok v run -> run_idle run -> GV c v ->
   let '(v', run', r) := defrag_pass c v run in
   match r with
   | OK _ => VamInv c v' /\ lists_frame v v' /\ grown v v' /\ run_ok v' run' /\ map dc_lr (dr_ctxs run') = map dc_lr (dr_ctxs run)
@@ -848,7 +848,7 @@ Proof.
 Qed.
 
 Lemma defrag_pass_G v run v' run' mvs :
-  VamInv c v -> run_ok v run -> run_idle run -> GV v -> defrag_pass c v run = (v', run', OK mvs) -> GV v'.
+  VamInv c v -> run_ok v run -> run_idle run -> GV c v -> defrag_pass c v run = (v', run', OK mvs) -> GV c v'.
 Proof.
   intros HI (Hb & Ha & _) Hidle HG E. unfold defrag_pass in E.
   pose proof (pass_loop_inv_gv (S (length (dr_ctxs run))) v run _ HI Hidle Hb Ha (PassProofs.pass_init_running _ _ Hb Ha) HG) as P. rewrite E in P. apply P.
